@@ -270,4 +270,310 @@ theorem isProbDense_iff (row : List XRat) : isProbDense row = true ↔ RowDist 0
 example : isProbLoop [.fin (1/4), .fin (3/4)] = true ∧ isProbLoop [.fin (1/2), .nan] = false ∧
     isProbDense [.pinf, .ninf] = false ∧ isProbSparse [.fin (3/2), .fin (-1/2)] = false := by decide +kernel
 
+/-! ## storage threshold of the sparse classes -/
+
+theorem tol_pos : 0 < tol := by unfold tol AITB.Gen.equalToleranceSmall; norm_num
+
+/-- what `if ( checkDifferentSmall(0.0, p) ) insert(p)` keeps of a finite p -/
+def spQ (q : Rat) : Rat := if (if 0 + -q < 0 then -(0 + -q) else 0 + -q) ≤ tol then 0 else q
+
+theorem sparsify_fin (q : Rat) : sparsify (.fin q) = .fin (spQ q) := by
+  have key : diffSmall (.fin 0) (.fin q) = !decide ((if 0 + -q < 0 then -(0 + -q) else 0 + -q) ≤ tol) := rfl
+  unfold sparsify spQ
+  rw [key]
+  by_cases h : (if 0 + -q < 0 then -(0 + -q) else 0 + -q) ≤ tol
+  · rw [if_pos h, decide_eq_true h]; rfl
+  · rw [if_neg h, decide_eq_false h]; rfl
+
+theorem spQ_bounds {q : Rat} (h : 0 ≤ q) : 0 ≤ spQ q ∧ spQ q ≤ q ∧ q - spQ q ≤ tol := by
+  unfold spQ
+  have ht := tol_pos
+  split_ifs with h1 h2 h2 <;> refine ⟨?_, ?_, ?_⟩ <;> linarith
+
+/-- entries that survive the threshold differ from the supplied ones by at most the tolerance, whatever their sign -/
+theorem spQ_close (q : Rat) : -tol ≤ q - spQ q ∧ q - spQ q ≤ tol := by
+  unfold spQ
+  have ht := tol_pos
+  split_ifs with h1 h2 h2 <;> constructor <;> linarith
+
+theorem sumQ_spQ (qs : List Rat) (h : ∀ q ∈ qs, 0 ≤ q) :
+    sumQ qs - tol * qs.length ≤ sumQ (qs.map spQ) ∧ sumQ (qs.map spQ) ≤ sumQ qs := by
+  induction qs with
+  | nil => simp [sumQ]
+  | cons q r ih =>
+      have hq := spQ_bounds (h q (by simp))
+      have hr := ih (fun x hx => h x (by simp [hx]))
+      simp only [List.map, sumQ, List.length_cons, Nat.cast_succ]
+      constructor <;> nlinarith [hq.1, hq.2.1, hq.2.2, hr.1, hr.2]
+
+/-- strict row validity (dense classes): finite, non-negative, sum within the tolerance of one -/
+def RowS (row : List XRat) : Prop := RowDist 0 tol row
+/-- row validity of the sparse classes: finite, entries ≥ -tol, sum within (1 + length)·tol of one -/
+def RowW (row : List XRat) : Prop := RowDist (-tol) (tol * (1 + row.length)) row
+
+theorem RowS.toW {row : List XRat} (h : RowS row) : RowW row := by
+  obtain ⟨qs, hrow, hge, h1, h2⟩ := h
+  have ht := tol_pos
+  have hl : (0 : Rat) ≤ (row.length : Rat) := Nat.cast_nonneg _
+  refine ⟨qs, hrow, fun q hq => by have := hge q hq; linarith, ?_, ?_⟩ <;> nlinarith
+
+/-- **Sparse storage keeps rows normalised up to length·tolerance**: a row accepted by the template test, stored
+    through the threshold, has non-negative entries and a sum within (1+n)·1e-6 of one. -/
+theorem sparsified_row (row : List XRat) (h : RowS row) : RowW (row.map sparsify) := by
+  obtain ⟨qs, hrow, hge, h1, h2⟩ := h
+  subst hrow
+  have hs := sumQ_spQ qs hge
+  have ht := tol_pos
+  refine ⟨qs.map spQ, by simp [List.map_map, Function.comp_def, sparsify_fin], ?_, ?_, ?_⟩
+  · intro q hq
+    obtain ⟨q0, hq0, rfl⟩ := List.mem_map.1 hq
+    have := (spQ_bounds (hge q0 hq0)).1
+    linarith
+  · simp only [List.length_map]; nlinarith [hs.1, hs.2]
+  · simp only [List.length_map]
+    have hl : (0 : Rat) ≤ (qs.length : Rat) := Nat.cast_nonneg _
+    nlinarith [hs.1, hs.2]
+
+/-- the bound of `sparsified_row` is attained up to the last term: [1-2.7e-6, 9e-7, 9e-7, 9e-7] is accepted by the
+    template test and stored as a row whose sum is 2.7e-6 short of one — a row the library's own
+    isProbability(SparseMatrix2D) rejects (test on literals) -/
+example : isProbLoop [.fin (1 - 27/10000000), .fin (9/10000000), .fin (9/10000000), .fin (9/10000000)] = true ∧
+    isProbSparse ([XRat.fin (1 - 27/10000000), .fin (9/10000000), .fin (9/10000000), .fin (9/10000000)].map sparsify) = false := by
+  decide +kernel
+
+theorem xabs_fin (q : Rat) : xabs (.fin q) = .fin (if q < 0 then -q else q) := rfl
+
+theorem sumQ_abs_sub (qs : List Rat) (q : Rat) (hq : q ∈ qs) :
+    (if q < 0 then -q else q) - q ≤ sumQ (qs.map fun x => if x < 0 then -x else x) - sumQ qs := by
+  induction qs with
+  | nil => cases hq
+  | cons x r ih =>
+      have hnn : ∀ l : List Rat, 0 ≤ sumQ (l.map fun x => if x < 0 then -x else x) - sumQ l := by
+        intro l
+        induction l with
+        | nil => simp [sumQ]
+        | cons y t iht => simp only [List.map, sumQ]; split_ifs with hy <;> linarith
+      simp only [List.map, sumQ]
+      rcases List.mem_cons.1 hq with rfl | hmem
+      · have := hnn r; linarith
+      · have := ih hmem
+        have hx : 0 ≤ (if x < 0 then -x else x) - x := by split_ifs with hx <;> linarith
+        linarith
+
+/-- **isProbability(SparseMatrix2D) is sound up to the tolerance**: an accepted row is finite, has entries ≥ -tol
+    and sums to one within the tolerance.  (It is NOT complete for the strict notion and NOT as strict as the dense
+    test: [1+4e-7, -4e-7] is accepted; see the example below.) -/
+theorem isProbSparse_sound (row : List XRat) (h : isProbSparse row = true) : RowDist (-tol) tol row := by
+  simp only [isProbSparse, Bool.not_eq_true', Bool.or_eq_false_iff, diffSmall, Bool.not_eq_false'] at h
+  obtain ⟨s, hs, h1, h2⟩ := (eqSmall_one_iff _).1 h.1
+  obtain ⟨qs, hrow, hq⟩ := sumX_eq_fin row s hs
+  subst hrow
+  have habs : (qs.map XRat.fin).map xabs = (qs.map fun x => if x < 0 then -x else x).map XRat.fin := by
+    simp [List.map_map, Function.comp_def, xabs_fin]
+  rw [habs] at h
+  obtain ⟨s', hs', h1', h2'⟩ := (eqSmall_one_iff _).1 h.2
+  rw [sumX_fin] at hs'
+  cases hs'
+  refine ⟨qs, rfl, ?_, by rw [← hq]; exact h1, by rw [← hq]; exact h2⟩
+  intro q hmem
+  have := sumQ_abs_sub qs q hmem
+  split_ifs at this with hneg
+  · rw [← hq] at this; linarith
+  · have ht := tol_pos; linarith [not_lt.1 hneg]
+
+example : isProbSparse [.fin (1 + 4/10000000), .fin (-4/10000000)] = true ∧
+    isProbDense [.fin (1 + 4/10000000), .fin (-4/10000000)] = false := by decide +kernel
+
+/-! ## the setter state machine: validate-then-commit -/
+
+theorem exec_setter_true (ok : St → Bool) (f : St → St) (s : St) :
+    exec (setter true ok f) s = if ok s then (f s, false) else (s, true) := by
+  simp only [setter, if_true, exec]
+
+theorem exec_setter_false (ok : St → Bool) (f : St → St) (s : St) :
+    exec (setter false ok f) s = (f s, !(ok (f s))) := by
+  show exec [.assign f, .check ok] s = _
+  simp only [exec]
+  by_cases h : ok (f s) = true <;> simp [h]
+
+/-- the ten order facts, unpacked -/
+theorem vf_unpack (h : allValidateFirst = true) :
+    (∀ r, vfDiscount r = true) ∧ (∀ r, vfT3D r = true) ∧ (∀ r, vfTEigen r = true) ∧ (∀ r, vfO3D r = true) ∧ (∀ r, vfOEigen r = true) := by
+  simp only [allValidateFirst, Bool.and_eq_true] at h
+  obtain ⟨⟨⟨⟨⟨⟨⟨⟨⟨h1, h2⟩, h3⟩, h4⟩, h5⟩, h6⟩, h7⟩, h8⟩, h9⟩, h10⟩ := h
+  refine ⟨?_, ?_, ?_, ?_, ?_⟩ <;> intro r <;> cases r <;> assumption
+
+/-- **A rejected call leaves the object unchanged** — for every class, every setter, every argument (nan, inf,
+    malformed tables …) and every prior state, valid or not.  Hypothesis: in the source every `throw` of every
+    setter precedes its first write (`allValidateFirst`, recomputed from the source text on every run). -/
+theorem step_rejected_unchanged (h : allValidateFirst = true) (k : Kind) (s : St) (op : Op)
+    (hr : (step k s op).2 = true) : (step k s op).1 = s := by
+  obtain ⟨hd, ht3, hte, ho3, hoe⟩ := vf_unpack h
+  cases op <;> simp only [step, prog, hd, ht3, hte, ho3, hoe, exec_setter_true, exec] at hr ⊢ <;>
+    first
+    | (split at hr <;> simp_all)
+    | simp at hr
+
+/-- … and the converse reading of the order facts: were a setter to write before validating, a rejected call WOULD
+    change the object (so the hypothesis of `step_rejected_unchanged` is not decoration). -/
+theorem commit_before_validate_is_observable (ok : St → Bool) (f : St → St) (s : St)
+    (hbad : ok (f s) = false) (hchg : f s ≠ s) :
+    (exec (setter false ok f) s).2 = true ∧ (exec (setter false ok f) s).1 ≠ s := by
+  rw [exec_setter_false]; simp [hbad, hchg]
+
+/-- over whole histories: a call that threw can be deleted from the history without changing what follows -/
+theorem run_rejected_noop (h : allValidateFirst = true) (k : Kind) (s : St) (op : Op) (rest : List Op)
+    (hr : (step k s op).2 = true) : run k s (op :: rest) = run k s rest := by
+  simp only [run, step_rejected_unchanged h k s op hr]
+
+/-! ## validity -/
+
+def RowsOK (P : List XRat → Prop) (t : Tab3) : Prop := ∀ m ∈ t, ∀ row ∈ m, P row
+
+/-- the row predicate each representation guarantees -/
+def rowP : Rep → List XRat → Prop
+  | .dense => RowS
+  | .sparse => RowW
+
+/-- "the object describes a valid (PO)MDP": discount in (0,1], every transition and observation row a distribution
+    (strict for dense storage, up to the storage threshold for sparse storage) -/
+structure Valid (k : Kind) (s : St) : Prop where
+  disc : DiscOK s.disc
+  T : RowsOK (rowP k.base) s.T
+  Om : RowsOK (rowP k.obs) s.Om
+
+theorem rowsOK_mk3 (P : List XRat → Prop) (X Y Z : Nat) (f : Nat → Nat → Nat → XRat)
+    (h : ∀ x < X, ∀ y < Y, P ((List.range Z).map (f x y))) : RowsOK P (mk3 X Y Z f) := by
+  intro m hm row hrow
+  simp only [mk3, List.mem_map, List.mem_range] at hm
+  obtain ⟨x, hx, rfl⟩ := hm
+  simp only [List.mem_map, List.mem_range] at hrow
+  obtain ⟨y, hy, rfl⟩ := hrow
+  exact h x hx y hy
+
+theorem check3D_iff (X Y n : Nat) (t : Tab3) :
+    check3D X Y n t = true ↔ ∀ x < X, ∀ y < Y, isProbLoop (rowOf t x y n) = true := by
+  simp [check3D, List.all_eq_true]
+
+theorem stored_row (r : Rep) (row : List XRat) (h : isProbLoop row = true) : rowP r (row.map (storeP r)) := by
+  have hs : RowS row := (isProbLoop_iff row).1 h
+  cases r with
+  | dense =>
+      have : storeP Rep.dense = id := by funext p; rfl
+      simpa [rowP, this] using hs
+  | sparse => exact sparsified_row row hs
+
+theorem eigen_rows (r : Rep) (t : Tab3) (h : checkEigen r t = true) : RowsOK (rowP r) t := by
+  intro m hm row hrow
+  simp only [checkEigen, List.all_eq_true] at h
+  have := h m hm row hrow
+  cases r with
+  | dense => exact (isProbDense_iff row).1 this
+  | sparse =>
+      obtain ⟨qs, hq, hge, h1, h2⟩ := isProbSparse_sound row this
+      have ht := tol_pos
+      have hl : (0 : Rat) ≤ (row.length : Rat) := Nat.cast_nonneg _
+      refine ⟨qs, hq, hge, ?_, ?_⟩ <;> nlinarith
+
+/-- what the discount guard of the two MDP classes lets through (nan aside) is a discount: from the generated table -/
+theorem discGuard_ok (r : Rep) : (discGuard r).discountOKfinite = true ∧ (discGuard r).discountComplete = true := by
+  cases r <;> decide +kernel
+
+/-- both `MDP::Model::setDiscount` and `MDP::SparseModel::setDiscount` reject nan (closed term over the generated table) -/
+def discNanSafe : Bool := (discGuard .dense).eval .nan && (discGuard .sparse).eval .nan
+
+/-- common core of `step_valid` / `step_valid_partial` -/
+theorem step_valid_core (h : allValidateFirst = true) (k : Kind) (s : St) (op : Op) (hv : Valid k s)
+    (hd : ∀ d, op = .setDiscount d → (discGuard k.base).eval d = false → DiscOK d) :
+    Valid k (step k s op).1 := by
+  obtain ⟨hvd, ht3, hte, ho3, hoe⟩ := vf_unpack h
+  cases op with
+  | setDiscount d =>
+      simp only [step, prog, hvd, exec_setter_true]
+      by_cases hg : (discGuard k.base).eval d = true
+      · simpa [hg] using hv
+      · have hg' : (discGuard k.base).eval d = false := by simpa using hg
+        simp only [hg', Bool.not_false, if_true]
+        exact ⟨hd d rfl hg', hv.T, hv.Om⟩
+  | setT3D t =>
+      simp only [step, prog, ht3, exec_setter_true]
+      by_cases hc : check3D s.S s.A s.S t = true
+      · simp only [hc, if_true]
+        refine ⟨hv.disc, ?_, hv.Om⟩
+        apply rowsOK_mk3
+        intro a ha x hx
+        have := (check3D_iff _ _ _ _).1 hc x hx a ha
+        have hst := stored_row k.base _ this
+        simpa [rowOf, List.map_map, Function.comp_def] using hst
+      · simpa [hc] using hv
+  | setTEigen t =>
+      simp only [step, prog, hte, exec_setter_true]
+      by_cases hc : checkEigen k.base t = true
+      · simp only [hc, if_true]; exact ⟨hv.disc, eigen_rows _ _ hc, hv.Om⟩
+      · simpa [hc] using hv
+  | setR3D r => simp only [step, prog, exec]; exact ⟨hv.disc, hv.T, hv.Om⟩
+  | setREigen r => simp only [step, prog, exec]; exact ⟨hv.disc, hv.T, hv.Om⟩
+  | setO3D o =>
+      simp only [step, prog, ho3, exec_setter_true]
+      by_cases hc : check3D s.S s.A s.O o = true
+      · simp only [hc, if_true]
+        refine ⟨hv.disc, hv.T, ?_⟩
+        apply rowsOK_mk3
+        intro a ha x hx
+        have := (check3D_iff _ _ _ _).1 hc x hx a ha
+        have hst := stored_row k.obs _ this
+        simpa [rowOf, List.map_map, Function.comp_def] using hst
+      · simpa [hc] using hv
+  | setOEigen o =>
+      simp only [step, prog, hoe, exec_setter_true]
+      by_cases hc : checkEigen k.obs o = true
+      · simp only [hc, if_true]; exact ⟨hv.disc, hv.T, eigen_rows _ _ hc⟩
+      · simpa [hc] using hv
+
+/-- **step_valid (full strength)**: a valid object stays valid under EVERY call of EVERY setter with ANY argument,
+    accepted or rejected — provided the setDiscount guards reject nan (`discNanSafe`, a closed term over the
+    generated guard table; `false` on the tree as first read). -/
+theorem step_valid (h : allValidateFirst = true) (hn : discNanSafe = true) (k : Kind) (s : St) (op : Op)
+    (hv : Valid k s) : Valid k (step k s op).1 := by
+  apply step_valid_core h k s op hv
+  intro d _ hg
+  by_cases hnan : d = .nan
+  · subst hnan
+    simp only [discNanSafe, Bool.and_eq_true] at hn
+    cases hk : k.base <;> rw [hk] at hg <;> simp_all
+  · exact discountOKfinite_sound _ (discGuard_ok k.base).1 d hnan hg
+
+/-- **step_valid_partial** (what holds of the code as first read): the same for every call except `setDiscount(nan)`. -/
+theorem step_valid_partial (h : allValidateFirst = true) (k : Kind) (s : St) (op : Op)
+    (hop : op ≠ .setDiscount .nan) (hv : Valid k s) : Valid k (step k s op).1 := by
+  apply step_valid_core h k s op hv
+  intro d hd hg
+  have hnan : d ≠ .nan := by rintro rfl; exact hop hd
+  exact discountOKfinite_sound _ (discGuard_ok k.base).1 d hnan hg
+
+/-- the excluded call really breaks validity when the guard lets nan through: after `setDiscount(nan)` the discount
+    is nan, for every object and class -/
+theorem setDiscount_nan_counterexample (h : allValidateFirst = true) (k : Kind) (s : St)
+    (hn : (discGuard k.base).eval .nan = false) : ¬ Valid k (step k s (.setDiscount .nan)).1 := by
+  obtain ⟨hvd, _⟩ := vf_unpack h
+  intro hv
+  have := hv.disc
+  simp only [step, prog, hvd, exec_setter_true, hn, Bool.not_false, if_true] at this
+  obtain ⟨q, hq, _⟩ := this
+  cases hq
+
+/-- **histories**: validity is an invariant of every sequence of calls, failing ones included -/
+theorem run_valid (h : allValidateFirst = true) (hn : discNanSafe = true) (k : Kind) (ops : List Op) (s : St)
+    (hv : Valid k s) : Valid k (run k s ops) := by
+  induction ops generalizing s with
+  | nil => exact hv
+  | cons op r ih => exact ih _ (step_valid h hn k s op hv)
+
+theorem run_valid_partial (h : allValidateFirst = true) (k : Kind) (ops : List Op) (s : St)
+    (hops : ∀ op ∈ ops, op ≠ .setDiscount .nan) (hv : Valid k s) : Valid k (run k s ops) := by
+  induction ops generalizing s with
+  | nil => exact hv
+  | cons op r ih =>
+      exact ih _ (fun o ho => hops o (by simp [ho])) (step_valid_partial h k s op (hops op (by simp)) hv)
+
 end AITB.MS
